@@ -49,6 +49,13 @@ def check (c : Ctx) (r : Run) : Verdict :=
       (structTypeNamed m s.name).map fun (h, t) =>
         (if gvt.contains h then "hs" else "vertex-only") ++
         (if structHasRtsArrayMember m ((membersOf t).filter fun mem => !isBuiltinMember mem) then "+rts" else "")
+    -- "layout assertions exactly with bytemuck host-shareable": an assertion of a shape the reader does not know is still a
+    -- layout assertion when it speaks about `size_of` / `offset_of`; with the host-shareable switch off none may exist
+    let strayAsserts := o.unknown.filter fun (u : String × String) =>
+      u.1 == "assert" && ((u.2.splitOn "size_of").length > 1 || (u.2.splitOn "offset_of").length > 1)
+    let errs := if !r.opts.bmHost then
+        errs ++ strayAsserts.map fun u => s!"derives#assertions-without-bytemuck-host-shareable: the output carries the layout assertion `{u.2.take 160}` although the bytemuck host-shareable switch is off"
+      else errs
     { corr := corr
       spec := match errs with | [] => .ok | e :: _ => .fail e
       tags := roles.eraseDups }
